@@ -151,6 +151,20 @@ def decode3(ex) -> tuple:
 
 
 STRICT = ("ok", "oklist", "bigbytes", "emptybytes")
+# fresh metadata values: plain ones, values that differ only in type, a
+# value that extends another one, and falsy / null values
+META_VALUES = {
+    "A": {"k": "A"},
+    "B": {"k": "B"},
+    "I1": {"k": 1},
+    "S1": {"k": "1"},
+    "AX": {"k": "A", "x": 1},
+    "F": {"flag": False, "tag": "", "n": None},
+}
+
+
+def _strict(x) -> str:
+    return json.dumps(x, sort_keys=True, ensure_ascii=False)
 
 
 def soft(ex):
@@ -198,8 +212,8 @@ def run_sequence(fmt: str, eps: int, seq: list, readers=("sync",)) -> dict:
                 for i, (split, val, meta) in enumerate(seq):
                     if meta == "-":
                         arg = None
-                    elif meta in ("A", "B"):
-                        arg = {"k": meta}
+                    elif meta in META_VALUES:
+                        arg = json.loads(json.dumps(META_VALUES[meta]))
                     elif meta == "E":  # explicit empty dict
                         arg = {}
                     elif meta[0] == "N":
@@ -325,7 +339,7 @@ def run_sequence(fmt: str, eps: int, seq: list, readers=("sync",)) -> dict:
                 where = dict(zip(acc, flat))
             for i, sp, val, snap, ok, err in calls:
                 if ok and sp == split and snap and i in where:
-                    if where[i] != snap:
+                    if _strict(where[i]) != _strict(snap):
                         bad.append(("C11", "mislabelled",
                                     f"split {split}: example {i} was written "
                                     f"with metadata {snap} but its shard is "
@@ -375,8 +389,8 @@ def run_sequence(fmt: str, eps: int, seq: list, readers=("sync",)) -> dict:
                             split=split,
                             repeat=False,
                             shuffle=0,
-                            shard_filter=lambda s, w=want: s.custom_metadata ==
-                            w)
+                            shard_filter=lambda s, w=want: _strict(
+                                s.custom_metadata) == _strict(w))
                     ]
                 except ValueError as e:
                     got = []
